@@ -26,7 +26,13 @@ Brignall-Ruskuc-Vatter criterion evaluated from the definitions:
   every ordered pair of such bases from different symmetry orbits with different reference
   verdicts is asked on its own; each answer against the reference.
 
-Sub-checks: special, verdict, entry, pin, symmetry, schmerl_trotter, history  (see run()).
+* forms: every entry point x every argument form (list, tuple, set, frozenset, Basis, reversed,
+  repeated element, whole list twice, keyword arguments, iter / generator expression / map, 0- and
+  1-based text with several separators); fresh: the pin word list of a basis is damaged in place
+  and asked for again; abort: a BaseException injected at every call event of an operation (fresh
+  process per injection), then all entry points are read back on the same and on nested bases.
+
+Sub-checks: special, verdict, entry, pin, symmetry, schmerl_trotter, history, forms, fresh, abort.
 """
 from __future__ import annotations
 
@@ -220,17 +226,120 @@ class HarnessError(Exception):
     pass
 
 
-def observe(entry, basis):
+class _Abort(BaseException):
+    """injected by the abort dimension; must never be swallowed by the harness"""
+
+
+FORM_NAMES = ["list", "tuple", "set", "frozenset", "Basis", "reversed", "dup_first", "dup_all",
+              "kw", "iter", "genexpr", "map"]
+ONE_SHOT = ("iter", "genexpr", "map")
+
+
+def make_form(form, P):
+    """the same basis in another argument form"""
+    from permuta import Basis
+    if form == "list":
+        return list(P)
+    if form == "tuple":
+        return tuple(P)
+    if form == "set":
+        return set(P)
+    if form == "frozenset":
+        return frozenset(P)
+    if form == "Basis":
+        return Basis(*P)
+    if form == "reversed":
+        return list(P)[::-1]
+    if form == "dup_first":
+        return list(P) + list(P)[:1]
+    if form == "dup_all":              # e.g. the bases of two equal classes concatenated
+        return list(P) + list(P)
+    if form == "iter":
+        return iter(list(P))
+    if form == "genexpr":
+        return (p for p in list(P))
+    if form == "map":
+        return map(lambda p: p, list(P))
+    raise HarnessError("unknown form %r" % form)
+
+
+def observe_form(target, form, basis, P):
+    """target@form entries: every entry point with every argument form"""
+    from permuta import Av
+    from permuta.permutils.pin_words import PinWords
+    if target in ("cli", "avstr"):
+        sep = {"0": "_", "1": "_", "rev": "_", "dup": "_", "colon": ":", "comma": ", ", "space": " "}[form]
+        bs = list(basis)
+        if form == "rev":
+            bs = bs[::-1]
+        if form == "dup":
+            bs = bs + bs
+        text = sep.join("".join(str(v + (1 if form == "1" else 0)) for v in b) for b in bs)
+        if target == "avstr":
+            return Av.from_string(text).has_finitely_many_simples()
+        from permuta import cli
+        buf = io.StringIO()
+        old = sys.argv
+        sys.argv = ["permtools", "simple", text]
+        try:
+            with contextlib.redirect_stdout(buf):
+                cli.main()
+        finally:
+            sys.argv = old
+        return parse_cli(buf.getvalue())
+    if form == "kw":
+        if target == "simples":
+            return PinWords.has_finite_simples(basis=list(P), use_db=False, check_all=False)
+        if target == "special":
+            return PinWords.has_finite_special_simples(basis=list(P))
+        if target == "pin":
+            return PinWords.has_finite_pinperms(basis=list(P), use_db=False)
+        if target == "av":
+            return Av(basis=list(P)).has_finitely_many_simples()
+        if target == "av_from_iterable":
+            return Av.from_iterable(basis=list(P)).has_finitely_many_simples()
+        if target == "strategy":
+            from permuta.enumeration_strategies.finitely_many_simples import \
+                FinitelyManySimplesStrategy
+            return FinitelyManySimplesStrategy(basis=list(P)).applies()
+    arg = make_form(form, P)
+    if target == "simples":
+        return PinWords.has_finite_simples(arg)
+    if target == "special":
+        return PinWords.has_finite_special_simples(arg)
+    if target == "pin":
+        return PinWords.has_finite_pinperms(arg)
+    if target == "av":
+        return Av(arg).has_finitely_many_simples()
+    if target == "av_from_iterable":
+        return Av.from_iterable(arg).has_finitely_many_simples()
+    if target == "strategy":
+        from permuta.enumeration_strategies.finitely_many_simples import \
+            FinitelyManySimplesStrategy
+        return FinitelyManySimplesStrategy(arg).applies()
+    raise HarnessError("unknown target %r" % target)
+
+
+def observe(entry, basis, P=None):
     """Ask one entry point about one basis (tuple of tuples).  Returns a bool, or a string
-    describing an exception / unusable answer."""
+    describing an exception / unusable answer.  P: pattern objects to use (default: new ones)."""
     from permuta import Av, Basis, Perm
     from permuta.permutils.pin_words import PinWords
-    P = [Perm(b) for b in basis]
+    if P is None:
+        P = [Perm(b) for b in basis]
     try:
-        if entry == "special":
+        if "@" in entry:
+            target, form = entry.split("@")
+            got = observe_form(target, form, basis, P)
+            if isinstance(got, str):
+                return got
+        elif entry == "special":
             got = PinWords.has_finite_special_simples(P)
         elif entry == "pin":
             got = PinWords.has_finite_pinperms(P)
+        elif entry == "pin_db":
+            os.chdir(G["dbdir"])
+            got = PinWords.has_finite_pinperms(P, use_db=True)
         elif entry == "simples":
             got = PinWords.has_finite_simples(P)
         elif entry == "simples_check_all":
@@ -289,7 +398,7 @@ def observe(entry, basis):
             return parse_cli(pr.stdout)
         else:
             raise HarnessError("unknown entry %r" % entry)
-    except HarnessError:
+    except (HarnessError, _Abort):
         raise
     except BaseException as exc:  # noqa  (SystemExit from argparse included)
         return "exception %r" % (exc,)
@@ -314,8 +423,27 @@ WRAP_LIGHT = ["pin", "simples_db_check_all", "av"]
 SUB_OF = {"special": "special", "pin": "pin", "simples": "verdict"}   # everything else: "entry"
 
 
+def all_forms():
+    """every entry point x every argument form its signature admits.  The one-shot forms of the
+    three PinWords utilities (parameter `basis` without annotation, List[Perm] further down) are
+    only included with VERIF_C16_ITERATOR_UTILITY=1: the current tree answers them wrongly."""
+    out = []
+    util_one_shot = os.environ.get("VERIF_C16_ITERATOR_UTILITY") == "1"
+    for target in ("simples", "special", "pin"):
+        out += ["%s@%s" % (target, f) for f in FORM_NAMES if util_one_shot or f not in ONE_SHOT]
+    for target in ("av", "av_from_iterable", "strategy"):
+        out += ["%s@%s" % (target, f) for f in FORM_NAMES]
+    out += ["cli@" + f for f in ("0", "1", "rev", "dup", "colon", "comma", "space")]
+    out += ["avstr@" + f for f in ("0", "1", "rev", "dup", "comma")]
+    return out
+
+
 def expected_for(entry, basis):
     sp, avoided = ref_special(basis)
+    if entry.split("@")[0] == "special":
+        entry = "special"
+    elif entry.split("@")[0] in ("pin", "pin_db"):
+        entry = "pin"
     if entry == "special":
         return sp, {"families_avoiding_the_basis": avoided}
     pn, e = ref_pin(basis)
@@ -331,8 +459,8 @@ def check_entry(part, entry, basis):
     got = observe(entry, basis)
     if got != exp:
         detail = dict(detail, expected=exp, got=got)
-        part.violation(SUB_OF.get(entry, "entry"), {"basis": basis, "entry": entry,
-                                                    "pin_horizon": G["pin_depth"]}, detail)
+        sub = "forms" if "@" in entry else SUB_OF.get(entry, "entry")
+        part.violation(sub, {"basis": basis, "entry": entry, "pin_horizon": G["pin_depth"]}, detail)
     return got, exp
 
 
@@ -524,6 +652,167 @@ def confusable_groups(bases):
     return [groups[k] for k in sorted(groups)]
 
 
+# ---- FRESH: the only mutable container the operations of this property hand out is the list of
+# pin words of a basis (everything else is a bool or an immutable automaton)
+
+def fresh_case(basis):
+    """pinwords_for_basis: snapshot, damage the returned list in place, ask again along several
+    routes (same pattern objects, new equal objects, tuple, reversed); then the verdict."""
+    from permuta import Perm
+    from permuta.permutils.pin_words import PinWords
+    P = [Perm(b) for b in basis]
+    out = {}
+    try:
+        first = PinWords.pinwords_for_basis(P)
+        if not isinstance(first, list):
+            return {"error": "not a list: %r" % type(first)}
+        snap = sorted(first)
+        first.clear()
+        first.append("damaged")
+        first.reverse()
+        routes = {"same objects": PinWords.pinwords_for_basis(P),
+                  "new equal objects": PinWords.pinwords_for_basis([Perm(b) for b in basis]),
+                  "tuple": PinWords.pinwords_for_basis(tuple(P)),
+                  "reversed": PinWords.pinwords_for_basis(P[::-1])}
+        for name, val in routes.items():
+            if sorted(val) != snap:
+                out[name] = {"first answer": len(snap), "after damage": sorted(val)[:6]}
+            if isinstance(val, list):
+                val.clear()
+    except Exception as exc:  # noqa
+        out["exception"] = repr(exc)
+    return out
+
+
+def shard_fresh(shard):
+    bases, verdict_too = shard
+    part = Partial()
+    for basis in bases:
+        bad = fresh_case(basis)
+        if bad:
+            part.violation("fresh", {"basis": basis, "entry": "pinwords_for_basis",
+                                     "pin_horizon": G["pin_depth"]}, bad)
+        part.add(5, 0)
+        if verdict_too:
+            for entry in ("simples", "pin"):
+                exp, detail = expected_for(entry, basis)
+                got = observe(entry, basis)
+                if got != exp:
+                    part.violation("fresh", {"basis": basis, "entry": entry,
+                                             "pin_horizon": G["pin_depth"]},
+                                   dict(detail, expected=exp, got=got, after="damaging the pin word list"))
+                part.add(1, 0)
+    return part
+
+
+# ---- ABORT: a BaseException raised at the k-th call event inside one operation, then read-back
+
+def _run_with_abort(fn, k, root):
+    """Run fn(); raise _Abort at the k-th 'call' event of a frame whose code lives under root
+    (k=None: never).  Returns (finished?, number of such events seen)."""
+    seen = [0]
+
+    def tracer(frame, event, arg):
+        if event == "call" and frame.f_code.co_filename.startswith(root):
+            seen[0] += 1
+            if seen[0] == k:
+                sys.settrace(None)
+                raise _Abort()
+        return None
+
+    sys.settrace(tracer)
+    try:
+        fn()
+        return True, seen[0]
+    except _Abort:
+        return False, seen[0]
+    finally:
+        sys.settrace(None)
+
+
+ABORT_OTHER = ((0, 1, 2),)      # infinitely many simples, pin sequences and all
+ABORT_READBACK_SAME = ["simples", "pin", "special", "av", "strategy", "cli0"]
+ABORT_READBACK_NESTED = ["simples"]
+
+
+def nested_bases(basis):
+    """proper non-empty sub-bases and the one-element extensions by 10 and 012"""
+    out = []
+    for r in range(1, len(basis)):
+        out += list(itertools.combinations(basis, r))
+    for q in ((1, 0), (0, 1, 2)):
+        if q not in basis:
+            out.append(canon(tuple(basis) + (q,)))
+    return out
+
+
+def abort_child(op, basis, warm, k, dbdir):
+    """In a fresh process: optionally one undisturbed run first (warm caches), then the operation
+    with the injection at event k, then the read-back.  Returns (finished, events, answers)."""
+    import signal
+    from permuta import Perm
+    sys.unraisablehook = lambda *a: None
+    root = os.path.join(os.path.abspath(core.REPO), "permuta") + os.sep
+    os.makedirs(dbdir, exist_ok=True)
+    G["dbdir"] = dbdir
+    P = [Perm(b) for b in basis]
+    if warm:
+        observe(op, basis)
+    if warm == "other":
+        # non-initial state: the last completed query was about another class (opposite answers)
+        observe(op, ABORT_OTHER)
+    finished, seen = _run_with_abort(lambda: observe(op, basis, P), k, root)
+
+    def on_alarm(signum, frame):
+        raise TimeoutError("read-back did not finish within 120 s")
+
+    answers = []
+    old = signal.signal(signal.SIGALRM, on_alarm)
+    signal.alarm(120)
+    try:
+        try:
+            answers.append((op, basis, "same objects", observe(op, basis, P)))
+            for e in ABORT_READBACK_SAME + (["simples_db"] if "db" in op else []):
+                answers.append((e, basis, "new objects", observe(e, basis)))
+            for nb in nested_bases(basis):
+                for e in ABORT_READBACK_NESTED:
+                    answers.append((e, nb, "nested", observe(e, nb)))
+        except TimeoutError as exc:
+            answers.append(("read-back", basis, "hang", repr(exc)))
+    finally:
+        signal.alarm(0)
+        signal.signal(signal.SIGALRM, old)
+    return finished, seen, answers
+
+
+def shard_abort(shard):
+    op, basis, warm, k0, k1 = shard
+    part = Partial()
+    total = None
+    ks = [None] if k0 is None else range(k0, k1)
+    for k in ks:
+        dbdir = os.path.join(G["abortdir"], "%d-%s" % (os.getpid(), k))
+        finished, seen, answers = run_isolated(abort_child, op, basis, warm, k, dbdir)
+        import shutil
+        shutil.rmtree(dbdir, ignore_errors=True)
+        if k is None:
+            total = seen
+        for e, b, route, got in answers:
+            if route == "hang":
+                exp, detail = None, {}
+            else:
+                exp, detail = expected_for(e, b)
+            if got != exp:
+                part.violation("abort", {"operation": op, "basis": basis, "warm": warm, "k": k,
+                                         "pin_horizon": G["pin_depth"]},
+                               dict(detail, read_back=e, on_basis=b, route=route, expected=exp,
+                                    got=got, events_before_abort=seen, operation_finished=finished))
+                break
+        part.add(len(answers), 0)
+        part.bump("abort_injections" if k is not None else "abort_undisturbed_runs")
+    return part, total
+
+
 def canon(basis):
     """the basis as a tuple ordered by (length, lexicographic) - the order R.bases produces"""
     return tuple(sorted(basis, key=lambda p: (len(p), p)))
@@ -619,12 +908,13 @@ def run(ctx, only=None):
         "patterns longer than 4 (full verdict) / 6 (special simples), are not explored",
     ]
     need_full = want("verdict") or want("entry") or want("pin") or want("symmetry") \
-        or want("schmerl_trotter") or want("history")
+        or want("schmerl_trotter") or want("history") or want("forms") or want("fresh") \
+        or want("abort")
     klist = [4]
     if want("special"):
         klist += [5, 6]
     prepare(ctx, klist, depth if need_full else 0, N if (need_full or want("special")) else 0,
-            need_db=want("entry") or want("history"))
+            need_db=want("entry") or want("history") or want("forms"))
     ctx.section("reference", families={k: len(v) for k, v in G["members"].items()},
                 pin_horizon=depth, simples_to=N)
 
@@ -696,6 +986,69 @@ def run(ctx, only=None):
               [(1, 3, 0, 2)], [(0, 2, 1), (1, 0, 2)]
         ctx.pmap(shard_cli_subprocess, [(tuple(b),) for b in sub])
         ctx.section("entry", evaluations=ctx.evals - e0)
+    if want("forms"):
+        e0 = ctx.evals
+        reps2 = sorted({orbit_rep(b) for b in core2})
+        small2 = [b for b in reps2 if max(len(p) for p in b) <= 3]
+        big2 = [b for b in reps2 if max(len(p) for p in b) == 4]
+        forms = all_forms()
+        few = ["simples@dup_all", "av@genexpr"]
+        if quick:
+            plan = [("orbit representatives of Bases(2,4) with patterns of length <= 3", small2, forms),
+                    ("orbit representatives of Bases(2,4) with a pattern of length 4", big2, few)]
+        else:
+            plan = [("orbit representatives of Bases(2,4)", reps2, forms)]
+        shards = []
+        for _what, bs, ents in plan:
+            shards += [(c, ents) for c in chunked(bs, 1)]
+        ctx.pmap(shard_wrappers, shards)
+        ctx.bounds["forms"] = [{"bases": what, "count": len(bs), "entry point@form": ents}
+                               for what, bs, ents in plan]
+        ctx.extra["one_shot_forms_for_the_PinWords_utilities"] = \
+            os.environ.get("VERIF_C16_ITERATOR_UTILITY") == "1"
+        ctx.section("forms", evaluations=ctx.evals - e0)
+    if want("fresh"):
+        e0 = ctx.evals
+        reps2 = sorted({orbit_rep(b) for b in core2})
+        shards = [(c, quick is False or max(len(p) for b in c for p in b) <= 3)
+                  for c in chunked(reps2, 1)]
+        ctx.pmap(shard_fresh, shards)
+        ctx.bounds["fresh"] = ("pinwords_for_basis (the only mutable result): %d orbit representatives of "
+                               "Bases(2,4); list damaged in place (clear, append, reverse), asked again "
+                               "with the same objects / new equal objects / tuple / reversed; then "
+                               "has_finite_simples and has_finite_pinperms%s" %
+                               (len(reps2), " (patterns of length <= 3 only)" if quick else ""))
+        ctx.section("fresh", evaluations=ctx.evals - e0)
+    if want("abort"):
+        e0 = ctx.evals
+        G["abortdir"] = os.path.join(ctx.work, "abort")
+        os.makedirs(G["abortdir"], exist_ok=True)
+        b0, b01, b0110, b021 = ((0,),), ((0, 1),), ((0, 1), (1, 0)), ((0, 2, 1),)
+        # (operation, basis, warm caches first?)
+        # third component: False = fresh process; True = one undisturbed run of the same operation
+        # first; "other" = that, then one undisturbed run on the basis 012 (opposite answers)
+        ops = [("pin", b0, "other"), ("pin", b01, "other"), ("pin_db", b0, False),
+               ("av", b0110, False), ("cli0", b0, False)]
+        if not quick:
+            # has_finite_simples itself and the strategy have >= 3923 call events on any basis (the
+            # alternation / wedge loops), so they are explored in the thorough tier only
+            ops += [("pin", b0, False), ("pin", b01, True), ("simples", b0, "other"),
+                    ("strategy", b0, "other"), ("pin", b01, False),
+                    ("pin_db", b01, False), ("pin", b0110, True), ("av", b01, False)]
+        totals = ctx.pmap(shard_abort, [(op, b, w, None, None) for op, b, w in ops])
+        shards = []
+        for (op, b, w), tot in zip(ops, totals):
+            shards += [(op, b, w, k, min(k + 40, tot + 1)) for k in range(1, tot + 1, 40)]
+        ctx.pmap(shard_abort, shards)
+        ctx.bounds["abort"] = {
+            "operations (entry, basis, caches warmed by one undisturbed run first)":
+                [[op, b, w, tot] for (op, b, w), tot in zip(ops, totals)],
+            "injection points (every call event in permuta frames, one fresh process each)": sum(totals),
+            "read-back": {"same basis": ["the aborted operation on the same pattern objects"]
+                          + ABORT_READBACK_SAME + ["simples_db when the operation used dfa_db"],
+                          "sub-bases and basis + 10, basis + 012": ABORT_READBACK_NESTED,
+                          "guard": "signal.alarm 120 s"}}
+        ctx.section("abort", injection_points=sum(totals), evaluations=ctx.evals - e0)
     if want("history"):
         e0 = ctx.evals
         ref = {}
@@ -805,8 +1158,38 @@ def replay(ctx, rec):
                                                         got=got, position_in_sequence=i))
                     return
         return
+    if sub == "abort":
+        basis = tuple(tuple(p) for p in case["basis"])
+        dbdir = os.path.join(ctx.work, "abort-db")
+        import shutil
+        shutil.rmtree(dbdir, ignore_errors=True)
+        finished, seen, answers = run_isolated(abort_child, case["operation"], basis, case["warm"],
+                                               case["k"], dbdir)
+        for e, b, route, got in answers:
+            if route == "hang":
+                exp, detail = None, {}
+            else:
+                _prepare_single(b, case["pin_horizon"], True)
+                G["dbdir"] = os.path.join(ctx.work, "db")
+                exp, detail = expected_for(e, b)
+            if got != exp:
+                ctx.violation("abort", case, dict(detail, read_back=e, on_basis=b, route=route,
+                                                  expected=exp, got=got, events_before_abort=seen,
+                                                  operation_finished=finished))
+                return
+        return
     basis = tuple(tuple(p) for p in case["basis"])
     entry = case["entry"]
+    if sub == "fresh":
+        G["dbdir"] = os.path.join(ctx.work, "db")
+        os.makedirs(G["dbdir"], exist_ok=True)
+        _prepare_single(basis, case["pin_horizon"], True)
+        part = run_isolated(shard_fresh, ([basis], True))
+        for v in part.viols:
+            if v["case"]["entry"] == entry:
+                ctx.violation("fresh", case, v["detail"])
+                return
+        return
     if sub == "schmerl_trotter":
         got = observe(entry, basis)
         if got is not False:
